@@ -34,6 +34,11 @@ CHECKS = {
    text="Seeded histories of data insertions through datasets, insert_data and annotations (with/without ids, repeated key/value pairs) and removals of data and keys; after every operation the returned handles are compared with the model's exactly-once prediction, the live sets are scanned for duplicate id-less (key,value) items and duplicate keys, and key.data()/find_data/test_data/data_by_value are compared with a full scan; DataValue::test is compared with a reference written from the doc comments over 25 values x ~100 operators incl. nested Not/And/Or. Held on what was observed.",
    note="Trusted: ref_test() in harness/src/c10.rs; NaN excluded; Bool-vs-string, Int-vs-EqualsFloat, Float-vs-EqualsInt not judged (undocumented).",
    ref="5/C10"),
+ "C11": dict(
+   technique="runtime monitoring: round-trip differential on stores reached by seeded histories - hooked dump of all stores, id maps, reverse indices and position indices compared entry by entry between the saved and the loaded store, plus observation with handles, search answers and re-serialisation to JSON",
+   text="Final states of seeded histories (gaps, protect_text, all selector kinds) are saved as CBOR and loaded again (shrink_to_fit on/off); the dumps of every index must be equal entry by entry, the canonical observation including handles and every reverse lookup must be equal, segmentation/find_text/related_text answers must be equal and both stores must serialise to the same STAM JSON. Held on the stores observed.",
+   note="Trusted: the dump hook; run-time state (changed flags, serialize-mode cell, caller-supplied debug/shrink settings) is excluded as documented.",
+   ref="5/C11"),
  "C12": dict(
    technique="runtime oracle monitor: exhaustive position/byte sweeps against a naive char_indices table under 12 configurations (milestone interval x shrink_to_fit) before/after index population + differential replay of one seeded history under all 12 configurations (observations and search answers must be identical)",
    text="Every codepoint position 0..=len+2 and every byte offset 0..=bytes+2 of seeded texts over 1-4 byte codepoints (short texts with every sub-range, long texts of 90-260 codepoints) is converted through utf8byte / utf8byte_to_charpos / text_by_offset on the resource and on bound and unbound sub-selections, for milestone intervals 0,1,2,3,7,100 x shrink on/off, before and after annotations populate the position index; the same seeded op-history is replayed under all 12 configurations and the complete observation plus segmentation/find_text/related_text answers are compared. Held on what was swept.",
